@@ -105,10 +105,15 @@ impl Database {
                                         change.key,
                                         pendding_conflict.len()
                                     );
-                                    (
-                                        pendding_conflict.last().unwrap().to_string(),
-                                        version.saturating_add(pendding_conflict.len() as i32),
-                                    )
+                                    match pendding_conflict.last() {
+                                        Some(last_conflict) => (
+                                            last_conflict.to_string(),
+                                            version.saturating_add(pendding_conflict.len() as i32),
+                                        ),
+                                        // The record of the waiting conflict is gone (a client removed
+                                        // it, or the key name does not list as itself): a new queue
+                                        None => (old_value.to_string(), old_version),
+                                    }
                                 } else {
                                     (old_value.to_string(), old_version)
                                 };
